@@ -456,7 +456,7 @@ def parse_model(rep, C, Q, N):
 # ------------------------------------------------------------------------------------------- K
 def run(ctx):
     j = J()
-    n = ctx.scale(18, 200)
+    n = ctx.scale(40, 300)
     fixed = [
         # etched device over a background slab, history of 3 (the reset to the backup matters)
         {"N": [4, 3, 4], "bg": {"mat": {"eps": 4.0}, "lo": 1, "thick": 2}, "jit": False,
@@ -503,6 +503,7 @@ def run(ctx):
 
     # expand_matrix (jnp.repeat) against the model's repeatList, and the index law
     jnp = j["jnp"]
+    rl, rmeta = [], []
     for t in range(ctx.scale(8, 60)):
         m = [ctx.rng.randint(1, 4) for _ in range(3)]
         v = [ctx.rng.randint(1, 3) for _ in range(3)]
@@ -521,8 +522,10 @@ def run(ctx):
         if not ok:
             ctx.violation(case, f"expand_matrix: voxel (i,j,k) does not read design cell (i//{v[0]}, j//{v[1]}, k//{v[2]})")
         row = [int(x) for x in ref[:, 0, 0]]
-        rep = ctx.driver.ask(f"repeat {v[0]} " + " ".join(map(str, row)))
-        ctx.expect_equal("repeat", case, " ".join(str(int(x)) for x in out[:, 0, 0]), rep)
+        rl.append(f"repeat {v[0]} " + " ".join(map(str, row)))
+        rmeta.append((case, " ".join(str(int(x)) for x in out[:, 0, 0])))
+    for (case, impl), rep in zip(rmeta, ctx.driver.ask_many(rl)):
+        ctx.expect_equal("repeat", case, impl, rep)
 
 
 # ------------------------------------------------------------------------------------------- S
